@@ -22,8 +22,8 @@ from tracelib import *
 PROP = "C20"
 LEVEL = "exploration"
 FLAVOUR = "plain"
-TIERS = {"quick": (260, 170), "thorough": (12000, 3300)}
-RULE_TEXT = ("one run = one generated document (promela or null datamodel, up to 3 nested invoked machines with explicit ids, many event names and string literals) "
+TIERS = {"quick": (240, 170), "thorough": (12000, 3300)}
+RULE_TEXT = ("one run = one generated document (promela or null datamodel, up to 3 nested invoked machines with explicit ids, many event names and string literals, 30% of the sends with eventexpr or without event name) "
              "transpiled by 2 live instances x 2 processes (ASLR on / off, different seeded heap warm-up) x 3 back-ends, plus interpretation of the document under one "
              "history with cache files off / cold / warm / stale / truncated / unwritable; non-trivial = at least two back-ends produced output and the interpretation "
              "processed at least one event; distinct = distinct document hashes among non-trivial runs")
@@ -58,6 +58,12 @@ def gen_doc(rp):
 def gen_doc1(rp):
     dm = rp.choice(["promela", "promela", "null"])
     root = p_c01.gen_chart(rp, dm, {"history": rp.random() < 0.5, "par_p": 0.15})
+    # sends and raises whose event the back-ends cannot know statically: eventexpr, or no event at all
+    for e in list(root.walk()):
+        if e.tag == "send" and "event" in e.attrs and rp.random() < 0.3:
+            name = e.attrs.pop("event")
+            if rp.random() < 0.6:
+                e.attrs["eventexpr"] = "'%s'" % name if dm == "null" else rp.choice(["'%s'" % name, "v0", "1"])
     states = [e for e in root.walk() if e.tag == "state"]
     for n in range(rp.randint(0, 3)):
         if not states:
